@@ -60,6 +60,14 @@ theorem isUnspecified_iff (ip : List UInt8) (h : ip.length = 16) :
   have h2 : ipv6unspecified.length = 16 := rfl
   simp [isUnspecified, equal, h, h1, h2]
 
+/-- The sanitised value depends on the *address* the parameter denotes, not on how it was spelled: two
+non-empty spellings of one address (`::ffff:1.2.3.4` / `1.2.3.4`, upper or lower case, with or without zero
+compression) tell the bridge the same thing. -/
+theorem clientAddr_depends_on_address_only (s t : Str) (hs : s ≠ []) (ht : t ≠ []) (h : parseIP s = parseIP t) :
+    clientAddr s = clientAddr t := by
+  unfold clientAddr
+  simp only [hs, ht, if_false, h]
+
 /-- **The bridge is told that address or none.**  A non-empty result names — with stub port 1 — an
 address whose text parses back to exactly the specified 16-byte address that the `client_ip` parameter
 denotes. -/
